@@ -333,7 +333,9 @@ async fn run_admin(a: &Args, m: &mut mon::Mon) {
         let cfg = storm::StormCfg { n_banks: r.gen_range(3..=5), n_users: 3, program_fees: r.gen_bool(0.7), magnitude: 1, with_staked: false, n_isolated: 1, emode: false, n_venue: 0 };
         let (mut w, mut s) = storm::Storm::build(seed, cfg).await;
         let g = s.g;
-        if a.prop == "C08" {
+        // C19 worlds take the identity probes too (every other world): who may re-point a fee
+        // destination or draw a fee vault down is judged by that check's own monitors
+        if a.prop == "C08" || (a.prop == "C19" && world_no % 2 == 1) {
             w.enable_impostor().await;
         }
         let mut ad = admin::Admin { g, emint: None, steps: 0 };
